@@ -527,8 +527,11 @@ func (da *DistributedAllocator) loadAllocations(ctx context.Context) error {
 				continue
 			}
 
-			// Allocate in epoch allocator (will set correct generation)
-			da.epochAllocator.Allocate(ctx, alloc.SubscriberID)
+			// Install the recorded address in the epoch allocator (sets the
+			// current generation); a conflicting record is skipped
+			if err := da.epochAllocator.SetAllocation(alloc.SubscriberID, prefix.IP); err != nil {
+				continue
+			}
 		} else {
 			// Session mode: set allocation directly from store
 			if err := da.allocator.SetAllocation(alloc.SubscriberID, prefix); err != nil {
@@ -578,12 +581,12 @@ func (da *DistributedAllocator) handleRemoteChange(key string, value []byte, del
 		}
 
 		// Check if we already have this allocation
-		if existing := da.epochAllocator.Lookup(alloc.SubscriberID); existing != nil {
+		if existing := da.epochAllocator.Lookup(alloc.SubscriberID); existing != nil && existing.Equal(prefix.IP) {
 			return // Already in sync
 		}
 
-		// Allocate in epoch allocator
-		da.epochAllocator.Allocate(context.Background(), alloc.SubscriberID)
+		// Install the announced address in the epoch allocator
+		da.epochAllocator.SetAllocation(alloc.SubscriberID, prefix.IP)
 	} else {
 		// Session mode: check if we already have this allocation
 		if existing := da.allocator.Lookup(alloc.SubscriberID); existing != nil {
